@@ -62,6 +62,11 @@ def code(f, adt, name):
 @cached
 def free_fn(f, name, module=None):
     c = [b for b in f.bodies.values() if b.kind == "fn" and b.fn_name == name and (module is None or b.name.startswith(module))]
+    if not c:
+        # a free function that became a method keeps its reference name in the normal form (normalize.detect_renames)
+        ren = (getattr(f, "normalization", {}) or {}).get("renamed", {})
+        c = [f.bodies[old] for new, old in ren.items() if old in f.bodies and f.bodies[old].fn_name == name
+             and f.bodies[old].kind in ("fn", "assoc_fn") and (module is None or old.startswith(module))]
     if len(c) != 1:
         raise AnchorLost("fn:" + name, "found %d candidates" % len(c))
     return c[0]
@@ -914,3 +919,32 @@ def element_predicate_table(f, body, field, elem_adt, dims):
                     outcomes.add(None)
         table[combo] = next(iter(outcomes)) if len(outcomes) == 1 else None
     return table
+
+
+def flush_completion(f):
+    """(body, code) of the function that does the bookkeeping once a packet's flush completed (`complete_flush`): by name
+    when it is still a Connection method, else the unique synchronous function that matches on the flushed packet's kind
+    (Control / Release / Retained) and marks the matching queue entry Sent -- it may have become a free function over
+    `&mut RuntimeState, &mut Outbound` or a method of the packet key itself."""
+    cm = conn_methods(f)
+    if "complete_flush" in cm:
+        return cm["complete_flush"]
+    from . import outq as _outq
+    cen = _outq.census(f)
+    sent = set()
+    for q in _outq.QUEUES:
+        for (b, bb, field, val, span) in cen[q]["elem_stores"]:
+            if field == "state" and _outq.is_sent(val):
+                sent.add(b.name)
+    cands = []
+    for b in f.bodies.values():
+        if b.kind not in ("fn", "assoc_fn") or f.in_fuzzing(b) or b.name in sent:
+            continue
+        code = f.code(b)   # (for an async function: its coroutine -- the bookkeeping may have been folded into its caller)
+        has_sw = any((code.switch_info(bb)["enum"] or "").endswith("FlushedPacket") and
+                     {"Control", "Release", "Retained"} <= set(code.switch_info(bb)["edges"]) for bb in code.switches if bb in code.reachable)
+        if has_sw and sum(1 for c in code.calls.values() if c.bb in code.reachable and any(t in sent for t in f.call_targets(c))) >= 3:
+            cands.append((b, code))
+    if len(cands) != 1:
+        raise AnchorLost("Connection::complete_flush", "found %d candidates for the flush-completion bookkeeping" % len(cands))
+    return cands[0]
